@@ -36,7 +36,7 @@ OInit == l = 0 /\ alive = Never /\ gstart = 0 /\ fgen = -1 /\ sessReq = Zero /\ 
 Names == {"C12_OnlySubscribed", "C12_ExactlyOne", "C12_ReplyFromMap", "C12_OneMapPerGen",
           "C13_StaleRejected", "C13_StaleNoCommit", "C13_GenMonotone", "C13_ReplyGen",
           "C14_JoinOK", "C14_Leader", "C14_ListOnlyLeader", "C14_SyncAfterLeader",
-          "C15_RestoreEqual", "C15_NotFenced", "C15_KeepWorking", "C43_RemovedJustified", "C43_NoOverdue", "C43_Rebalances"}
+          "C15_RestoreEqual", "C15_NotFenced", "C15_ActsOnRestored", "C15_KeepWorking", "C43_RemovedJustified", "C43_NoOverdue", "C43_Rebalances"}
 
 Step ==
   /\ l < Len(TraceLog) /\ l' = l + 1
@@ -68,6 +68,7 @@ Step ==
                   (IF P(a)!C14_SyncAfterLeader THEN {} ELSE {"C14_SyncAfterLeader"}) \cup
                   (IF P(a)!C15_RestoreEqual THEN {} ELSE {"C15_RestoreEqual"}) \cup
                   (IF P(a)!C15_NotFenced THEN {} ELSE {"C15_NotFenced"}) \cup
+                  (IF P(a)!C15_ActsOnRestored THEN {} ELSE {"C15_ActsOnRestored"}) \cup
                   (IF P(a)!C15_KeepWorking THEN {} ELSE {"C15_KeepWorking"}) \cup
                   (IF P(a)!C43_RemovedJustified THEN {} ELSE {"C43_RemovedJustified"}) \cup
                   (IF P(a)!C43_NoOverdue THEN {} ELSE {"C43_NoOverdue"}) \cup
